@@ -63,6 +63,8 @@ THEOREMS = [
     "Verif.C17.filter_filter",
     "Verif.C17.filter_idempotent",
     "Verif.C17.removeInRect_spec",
+    "Verif.C17.file_roundtrip",
+    "Verif.C17.file_roundtrip_spec",
 ]
 RULE = (
     "corpus (F4: one single-node track, three delimiters; F8: kbp-calibrated and uncalibrated kymograph saved with "
@@ -396,7 +398,7 @@ def impl(case):
     kind = case["kind"]
     if kind == "fmt":
         return [enc_rat(Fraction("%.6e" % float(case["x"])))]
-    n_answers = 2 if kind == "rt" else 1
+    n_answers = 4 if kind == "rt" else 1
     prep = prepare(case)
     if "unreachable" in prep:
         return [with_aux(UNREACHABLE, {"why": prep["unreachable"]})] * n_answers
@@ -420,7 +422,7 @@ def _impl(case, partial):
         try:
             prep["group"].save(path, delimiter=case["delim"], sampling_width=case["sw"], correct_origin=case["co"])
         except Exception as e:
-            return [errname(e), errname(e)]
+            return [errname(e)] * 4
         text = open(path).read()
         parsed = parse_csv_text(text, case["delim"])
         if "bad" in parsed:
@@ -435,12 +437,27 @@ def _impl(case, partial):
             raise
         except Exception as e:
             a2 = "IOError" if isinstance(e, OSError) else errname(e)
-        return [a1, a2]
+        # a3: the column titles of the real file; a4: the import again, compared with the model's route through titles
+        a3 = "bad-file" if "bad" in parsed else enc_titles(parsed["titles"])
+        return [a1, a2, a3, a2]
     if kind == "read":
         prep = prepare(case)
         path = os.path.join(_TMP, "read.csv")
         with open(path, "w") as f:
             f.write(handwritten_file(case, prep["info"]))
+        try:
+            g2 = kymotrack.import_kymotrackgroup_from_csv(path, prep["kymo"], "red", delimiter=case["delim"])
+            st = B.group_state(g2)
+            return [with_aux(enc_group(st), {"state": state_json(st)})]
+        except B.Unreachable:
+            raise
+        except Exception as e:
+            return ["IOError" if isinstance(e, OSError) else errname(e)]
+    if kind == "hdr":
+        prep = prepare(case)
+        path = os.path.join(_TMP, "hdr.csv")
+        with open(path, "w") as f:
+            f.write(header_file(case))
         try:
             g2 = kymotrack.import_kymotrackgroup_from_csv(path, prep["kymo"], "red", delimiter=case["delim"])
             st = B.group_state(g2)
@@ -537,6 +554,22 @@ def handwritten_file(case, info):
     return "\n".join(out) + "\n"
 
 
+def enc_titles(titles):
+    return "|".join(t.replace(" ", "~") for t in titles) if titles else "-"
+
+
+def header_file(case):
+    """a file given as version line (or none), title line and cells, exactly as np.savetxt would lay it out"""
+    d = case["delim"]
+    out = []
+    if case["version"] is not None:
+        out.append(f"# Exported with pylake v1.5.3 | track coordinates v{case['version']}")
+    out.append("# " + d.join(case["titles"]))
+    for r in case["cells"]:
+        out.append(d.join("%.18e" % x for x in r))
+    return "\n".join(out) + "\n"
+
+
 # ------------------------------------------------------------------ model side
 
 
@@ -546,14 +579,20 @@ def ops(case):
         return ["c17.fmt6 " + enc_rat(float(case["x"]))]
     prep = prepare(case)
     if "unreachable" in prep:
-        return ["c17.fmt6 0/1"] * (2 if kind == "rt" else 1)  # filler: the answers of a skipped case are never compared
+        return ["c17.fmt6 0/1"] * (4 if kind == "rt" else 1)  # filler: the answers of a skipped case are never compared
     info = prep["info"]
     ky = enc_kymo(info)
     if kind == "rt":
         smp = "N" if case["sw"] is None else f"{case['sw']}:{1 if case['co'] else 0}"
         img = enc_image(prep["image"]) if case["sw"] is not None else "[]"
         g = enc_group(prep["state0"])
-        return [f"c17.export {ky} {smp} {img} {g}", f"c17.roundtrip {ky} {smp} {img} {g}"]
+        all_md = "T" if all(tr["min_duration"] is not None for tr in prep["state0"]) else "F"
+        return [f"c17.export {ky} {smp} {img} {g}", f"c17.roundtrip {ky} {smp} {img} {g}",
+                f"c17.titles {info['unit']} {smp} {all_md}", f"c17.fileroundtrip {ky} {info['unit']} {smp} {img} {g}"]
+    if kind == "hdr":
+        rows = "[" + ";".join(",".join(enc_rat(float("%.18e" % x)) for x in r) for r in case["cells"]) + "]"
+        v = "N" if case["version"] is None else str(case["version"])
+        return [f"c17.readfile {ky} {v} {enc_titles(case['titles'])} {rows}"]
     if kind == "read":
         rows = []
         for idx, t, c, cnt, md in case["rows"]:
@@ -602,6 +641,8 @@ def agree(case, i, ia, ma):
     try:
         if kind == "fmt":
             return _rat(ia) == _rat(ma)
+        if kind == "rt" and i == 2 and ia.endswith("Error"):
+            return True  # nothing was saved (empty group): there is no title line to compare; answers 0/1/3 carry the error
         if ia.endswith("Error") or ma.endswith("Error") or ia.startswith("bad") or ma.startswith("bad"):
             if kind == "refine" and case.get("width_invalid"):
                 return True  # track-width validation is not part of the model; judged by the oracle
@@ -621,7 +662,9 @@ def agree(case, i, ia, ma):
                 if (a[6] == "N") != (m[6] == "N") or (a[6] != "N" and float(_rat(m[6])) != float(_rat(a[6]))):
                     return False
             return True
-        if kind in ("rt", "read"):
+        if kind == "rt" and i == 2:
+            return ia == ma
+        if kind in ("rt", "read", "hdr"):
             return same_group(dec_group(ia), dec_group(ma), TOL_RT, md_exact=True)
         if kind == "prog":
             ea, _, ga = ia.partition(" ")
@@ -686,6 +729,8 @@ def oracle(case, ia):
         return oracle_rt(case, ia)
     if kind == "read":
         return oracle_read(case, ia)
+    if kind == "hdr":
+        return oracle_hdr(case, ia)
     if kind == "prog":
         return oracle_prog(case, ia)
     if kind == "refine":
@@ -782,6 +827,36 @@ def oracle_read(case, ia):
             return f"grouping: counts of track index {g[0][0]}"
         if (got["md"] is None) == case["has_md"] or (case["has_md"] and got["md"] != float("%.6e" % g[0][4])):
             return f"minimum-duration: track index {g[0][0]} imported {got['md']!r}"
+    return None
+
+
+def oracle_hdr(case, ia):
+    """hand-written header variants: what the documented file format says about them (`expect` is written next to each
+    variant in HDR_VARIANTS; variants whose outcome the format does not determine are compared with the model only)"""
+    a, aux = split_aux(ia[0])
+    exp = case.get("expect")
+    if exp is None:
+        return None
+    if exp == "IOError":
+        return None if a == "IOError" else f"header[{case['variant']}]: expected IOError, got {a[:60]}"
+    if a.endswith("Error"):
+        return f"header[{case['variant']}]: a file with the documented columns was refused: {a}"
+    base = case["base"]
+    idxs = sorted(set(r[0] for r in base))
+    groups = [[r for r in base if r[0] == k] for k in idxs]
+    st = aux["state"]
+    if len(st) != len(groups):
+        return f"header[{case['variant']}]: {len(st)} tracks for track indices {idxs}"
+    for g, got in zip(groups, st):
+        if got["t"] != [int(r[1]) for r in g]:
+            return f"header[{case['variant']}]: lines {got['t']} for file rows {[r[1] for r in g]}"
+        want_c = [r[2] + (1.0 if exp.get("coord") == "second" else 0.0) for r in g]
+        if any(not relclose(w, c, TOL_RT) for w, c in zip(want_c, got["c"])):
+            return f"header[{case['variant']}]: coordinates {got['c'][:6]} instead of {want_c[:6]}"
+        if (got["counts"] if exp.get("counts") else None) != ([r[3] for r in g] if exp.get("counts") else None) or (not exp.get("counts") and got["counts"] is not None):
+            return f"header[{case['variant']}]: counts {got['counts']}"
+        if (got["md"] is not None) != bool(exp.get("md")) or (exp.get("md") and got["md"] != float("%.18e" % g[0][4])):
+            return f"header[{case['variant']}]: minimum duration {got['md']!r}"
     return None
 
 
@@ -1019,6 +1094,8 @@ def nontrivial(case, ia):
         return len(ia) > 1 and not ia[1].endswith("Error") and len(case["tracks"]) >= 1
     if kind == "read":
         return len(case["rows"]) >= 1
+    if kind == "hdr":
+        return len(case["cells"]) >= 1
     if kind == "prog":
         st = aux.get("states", [])
         return any(x != y for x, y in zip(st, st[1:])) or "Error" in a
@@ -1086,6 +1163,12 @@ def shrink(case):
                 c = dict(case)
                 c["tracks"] = [dict(tr, hw=None) for tr in trs]
                 yield c
+    elif kind == "hdr" and len(case["cells"]) > 1 and case["variant"] != "ragged":
+        for i in range(len(case["cells"])):
+            c = dict(case)
+            c["cells"] = case["cells"][:i] + case["cells"][i + 1 :]
+            c["base"] = case["base"][:i] + case["base"][i + 1 :]
+            yield c
     elif kind == "read" and len(case["rows"]) > 1:
         for i in range(len(case["rows"])):
             c = dict(case)
@@ -1149,6 +1232,59 @@ def load_corpus():
                 c["stream"] = "corpus"
                 out.append(c)
     return out
+
+
+T_IDX, T_T, T_C, T_SEC, T_POS = "track index", "time (pixels)", "coordinate (pixels)", "time (seconds)", "position (um)"
+T_CNT, T_MD, T_ML3 = "counts (summed over 3 pixels)", "minimum observable duration (seconds)", "minimum_length (-)"
+STD7 = [(T_IDX, "idx"), (T_T, "t"), (T_C, "c"), (T_SEC, "sec"), (T_POS, "pos"), (T_CNT, "cnt"), (T_MD, "md")]
+# variant -> (version, [(title, value key)], expectation by the documented format: IOError / {counts, md, coord} / None)
+HDR_VARIANTS = {
+    "std": (4, STD7, {"counts": True, "md": True}),
+    "no-version-line": (None, STD7, {"counts": True, "md": True}),
+    "v1-three-columns": (None, STD7[:3], {}),
+    "v2": (2, STD7[:6], {"counts": True}),
+    "v3-minimum-length": (3, STD7[:6] + [(T_ML3, "md")], {"counts": True, "md": True}),
+    "v3-with-v4-title": (3, STD7, {"counts": True}),
+    "v4-with-v3-title": (4, STD7[:6] + [(T_ML3, "md")], {"counts": True}),
+    "permuted": (4, [STD7[0], STD7[6], STD7[2], STD7[5], STD7[4], STD7[1], STD7[3]], {"counts": True, "md": True}),
+    "time-first": (4, [STD7[1], STD7[0]] + STD7[2:], "IOError"),
+    "coordinate-missing": (4, STD7[:2] + STD7[3:], "IOError"),
+    "time-missing": (4, [STD7[0]] + STD7[2:], "IOError"),
+    "duplicate-coordinate": (4, STD7[:5] + [(T_C, "c2")], {"coord": "second"}),
+    "extra-column": (4, STD7[:3] + [("foo (bar)", "junk")] + STD7[3:], {"counts": True, "md": True}),
+    "counts-other-title": (4, STD7[:5] + [("photon counts", "cnt")], {"counts": True}),
+    "two-counts-columns": (4, STD7[:5] + [(T_CNT, "cnt"), ("counts (summed over 5 pixels)", "cnt2")], {"counts": True}),
+    "header-shorter": (4, STD7, {"counts": True}),        # the last title is left out: that column has no key
+    "header-longer": (4, STD7, {"counts": True, "md": True}),  # one more title than columns
+    "ragged": (4, STD7, "IOError"),
+    "index-other-title": (4, [("particle", "idx")] + STD7[1:], {"counts": True, "md": True}),
+    "index-title-with-counts": (4, [("counts index", "idx")] + STD7[1:5] + [STD7[6]], None),
+    "non-integer-time": (4, STD7, None),
+}
+
+
+def hdr_case(variant, base, delim, stream):
+    """base rows [idx, t, c, cnt, md] -> cells under the variant's titles"""
+    version, cols, expect = HDR_VARIANTS[variant]
+    lt, px = 0.125, 0.1
+    if variant == "non-integer-time":
+        base = [[r[0], r[1] + 0.5, r[2], r[3], r[4]] for r in base]
+    val = {"idx": lambda r: float(r[0]), "t": lambda r: float(r[1]), "c": lambda r: r[2], "sec": lambda r: r[1] * lt, "pos": lambda r: r[2] * px,
+           "cnt": lambda r: float(r[3]), "md": lambda r: r[4], "c2": lambda r: r[2] + 1.0, "junk": lambda r: 7.0, "cnt2": lambda r: float(r[3] + 1)}
+    cells = [[val[k](r) for _, k in cols] for r in base]
+    titles = [t for t, _ in cols]
+    if variant == "header-shorter":
+        titles = titles[:-1]
+    if variant == "header-longer":
+        titles = titles + ["one more"]
+    if variant == "ragged" and cells:
+        cells[-1] = cells[-1][:-1]
+        if len(cells) == 1:
+            cells.insert(0, [val[k](base[0]) for _, k in cols])
+            base = [base[0]] + base
+    kk = {"route": "array", "cal": "um", "n_lines": 8, "n_pixels": 8, "img_seed": 1, "px_um": 0.1, "lt": 0.125}
+    return {"stream": stream, "kind": "hdr", "k": kk, "variant": variant, "version": version, "titles": titles, "cells": cells,
+            "base": base, "expect": expect, "delim": delim}
 
 
 def small_group_case(ops_, tracks=None, lt=0.125, cal="um"):
@@ -1250,6 +1386,11 @@ def cases(tier, rng):
     for assign in itertools.product([0, 1, 3], repeat=4):
         rows = [[a, n, 1.0 + 0.25 * n, n + 1, 0.5] for n, a in enumerate(assign)]
         yield {"stream": "small-scope", "kind": "read", "k": kk, "rows": rows, "delim": ";", "has_counts": assign[0] == 0, "has_md": assign[1] != 1}
+    # header variants: every variant x every delimiter on one three-row file, and on a single-row file
+    for variant in HDR_VARIANTS:
+        for d in DELIMS:
+            yield hdr_case(variant, [[0, 1, 2.5, 3, 0.5], [2, 0, 1.0, 5, 0.25], [0, 2, 2.75, 4, 0.5]], d, "small-scope")
+        yield hdr_case(variant, [[1, 3, 1.5, 2, 0.75]], ";", "small-scope")
     # %.6e on a grid incl. ties and carries
     for x in [0.0, 1.0, 0.5, 0.1, 1e-5, 123456.75, 1234567.5, 12345675.0, 12345665.0, 9999999.5, 99999995.0, 0.00099999995, 1.0000005, 2.5e-7, 3.0000015,
               0.125 * 7, 1 / 3, 2 / 3, 1e22, 1e-22, 5e-324 * 2**60]:
@@ -1323,6 +1464,22 @@ def cases(tier, rng):
         if sub.chance(0.08):
             rows[sub.randint(0, nrows - 1)][4] = 3.0  # conflicting minimum duration (if the track has other rows)
         yield {"stream": "random", "kind": "read", "k": kk, "rows": rows, "delim": sub.choice(DELIMS), "has_counts": sub.chance(0.5), "has_md": sub.chance(0.7), "subseed": i}
+
+    # ---- random: header variants
+    N = 150 if quick else 2000
+    r = rng.fork("c17-hdr")
+    names = sorted(HDR_VARIANTS)
+    for i in range(N):
+        sub = r.fork(i)
+        ids = sub.sample(range(0, 9), sub.randint(1, 4))
+        per = {a: sub.choice([0.0, 0.5, 0.25, 1.2345675, sub.uniform(0, 2)]) for a in ids}
+        base = []
+        for n in range(sub.randint(1, 12)):
+            a = sub.choice(ids)
+            base.append([a, sub.randint(0, 7), sub.choice([float(sub.randint(0, 7)), sub.uniform(0, 7)]), sub.randint(0, 50), per[a]])
+        c = hdr_case(sub.choice(names), base, sub.choice(DELIMS), "random")
+        c["subseed"] = i
+        yield c
 
     # ---- random: %.6e
     N = 300 if quick else 10000
@@ -1563,6 +1720,7 @@ def extra_coverage(results):
         d[str(key)] = d.get(str(key), 0) + 1
 
     single_row = 0
+    hdrk = {}
     skipped = {}
     plus_twins = 0
     for r in results:
@@ -1581,6 +1739,8 @@ def extra_coverage(results):
                 for e in m.group(1).split(","):
                     if e and e != "-":
                         bump(errs, "prog-step:" + e)
+        if c["kind"] == "hdr":
+            bump(hdrk, c["variant"] + ":" + ("error" if r["impl"][0].split(" ## ")[0].endswith("Error") else "imported"))
         if c["kind"] == "rt":
             bump(delims, {";": "semicolon", ",": "comma", "\t": "tab"}[c["delim"]])
             bump(sws, c["sw"])
@@ -1616,7 +1776,7 @@ def extra_coverage(results):
         "case_kinds": kinds, "error_kinds": errs, "roundtrip_delimiters": delims, "roundtrip_sampling_widths": sws,
         "roundtrip_calibrations": cals, "roundtrip_kymo_routes": routes, "roundtrip_group_sizes": sizes,
         "roundtrip_longest_track": nodes, "roundtrip_single_row_files": single_row, "roundtrip_minimum_durations": mdk,
-        "program_ops": opsk, "refinement_spot_places": refk, "dropped_for_margin": 0,
+        "header_variants": hdrk, "program_ops": opsk, "refinement_spot_places": refk, "dropped_for_margin": 0,
         "private_ties": {k: dict(v) for k, v in sorted(B.PRIVATE_TIES.items())},
         "private_ties_note": "how often each private pylake member was reached directly / replaced by its public twin / "
                              "rediscovered under another name / unreachable (the case is then skipped as '?')",
